@@ -272,3 +272,36 @@ Example C10_ex_betweenMinusPiAndPi_binary64 :
   (betweenMinusPiAndPi B64Ops idR idR 4 = 4 - M_2PI64 /\ betweenMinusPiAndPi B64Ops idR idR (-4) = M_2PI64 - 4) /\
   (betweenMinusPiAndPi B64Ops idR idR M_PI64 = M_PI64 /\ betweenMinusPiAndPi B64Ops idR idR (- M_PI64) = - M_PI64).
 Proof. exact (conj bpi_64_ex_4 bpi_64_ex_ends). Qed.
+
+(* ================= SYNTACTIC SOURCE TIE of the builders (translate/eigensym.py, translate/tr_C10_eigensym.py -> gen/SrcEigenC10.v) =================
+   eulerAngleToRotation2D, eulerAnglesToQuaternion, eulerAnglesToRotation3D and quaternionToEulerAngles, regenerated on every run
+   from the clang AST of their instantiation at double by the symbolic Eigen evaluator, equal the models the theorems above are
+   about.  (Eigen's AngleAxis -> Quaternion, quaternion product, toRotationMatrix and normalized are formulas of the evaluator;
+   the tie is on the composition written in EulerAngles.hpp: angle index / axis pairing, the order Z * Y * X, the conversions.) *)
+From Romea Require Import SrcTieC10Eigen.
+From Romea.gen Require Import SrcEigenC10.
+Theorem C10_source_tie_euler_builders :
+  (forall a, src_eulerAngleToRotation2D ROps a = eulerAngleToRotation2D ROps a) /\
+  (forall e : vec3 R, src_eulerAnglesToQuaternion ROps e = eulerAnglesToQuaternion ROps e) /\
+  (forall e : vec3 R, src_eulerAnglesToRotation3D ROps e = eulerAnglesToRotation3D ROps e) /\
+  (forall q : quat R, nleb ROps (nabs ROps (m20 (quat_to_mat ROps (qnormalized ROps q)))) (n_one ROps) = true ->
+     quaternionToEulerAngles ROps ROps idR idR q = Some (src_quaternionToEulerAngles ROps q)).
+Proof. exact source_tie_euler_builders. Qed.
+Print Assumptions C10_source_tie_euler_builders.
+
+From Coq Require Import List String.
+Import ListNotations.
+(* the polar / spherical conversions of include/romea_core_common/coordinates (template classes with a base class, getters and
+   static member templates, all inlined by the evaluator) — the maps C10_polar_* / C10_spherical_* are about.  toSpherical:
+   wherever the C++ does not produce NaN (range > 0, |z/range| <= 1), as the model's guards say. *)
+Theorem C10_source_tie_coordinates :
+  (forall x y, src_toPolar ROps (x, y) = toPolar ROps x y) /\
+  (forall r az, src_polarToCartesian ROps az r = polarToCartesian ROps r az) /\
+  (forall x y z, let r := nsqrt ROps (x * x + y * y + z * z) in
+     nltb ROps 0 r = true -> nleb ROps (nabs ROps (z / r)) 1 = true ->
+     toSpherical ROps x y z = Some (src_toSpherical ROps (mkV3 x y z))) /\
+  (forall r az el, src_sphericalToCartesian ROps az el r = sphericalToCartesian ROps r az el) /\
+  (src_toPolar_outputs = ["range_"; "azimut_"]%string /\ src_polarToCartesian_inputs = ["arg0.azimut_"; "arg0.range_"]%string /\
+   src_toSpherical_outputs = ["range_"; "azimut_"; "elevation_"]%string /\
+   src_sphericalToCartesian_inputs = ["arg0.azimut_"; "arg0.elevation_"; "arg0.range_"]%string).
+Proof. exact source_tie_coordinates. Qed.
